@@ -159,7 +159,7 @@ fn straddling_pair(rng: &mut Rng, res: i32) -> (MCell, MCell) {
 fn run(ctx: &Ctx) -> Run {
     silence_panics();
     let threads = ctx.threads;
-    let exhaustive_to: i32 = if ctx.quick() { 7 } else { 8 };
+    let exhaustive_to: i32 = if ctx.quick() { 7 } else { 9 };
     let mut out = parallel(threads, |w, run| {
         let mut rng = ctx.rng("C20", w);
         // (1) exhaustive adjacent positions for small resolutions (incl. across quintant and face borders)
